@@ -9,6 +9,7 @@ package docker
 // Info request succeeded; the ServerVersion request is best effort.
 //@ func (*Scanner).Scan
 //@   sig s, ctx, r
+//@   locals cancel: context.CancelFunc ;; host: string ;; docker: *github.com/moby/moby/client.Client ;; info: github.com/docker/docker/api/types.Info ;; version: github.com/docker/docker/api/types.Version
 //@   props C10 C08 C01 C02 C14
 //@   observe context.WithTimeout, String, fmt.Sprintf, WithHTTPClient, WithScheme, WithHost, NewClientWithOpts, Info, ServerVersion, cancel
 //@   entry row noclient: [call context.WithTimeout(ctx, s.dataTimeout) as (c2, cf) ; call String(r.DstIP) as (ips) ; call fmt.Sprintf("tcp://%s:%d", bind_a) as (host) ;
@@ -34,6 +35,7 @@ package docker
 //@   ensures s.dataTimeout == timeout
 //@ func NewScanner
 //@   sig proto, opts
+//@   locals tr: *net/http.Transport ;; s: *Scanner ;; o: ScannerOption
 //@   props C02 C10 C08 C01 C14
 //@   observe ScannerOption
 //@   entry row init:  [] when s.proto == proto && s.client.Timeout == 0 && isptr(s.client.Transport, http.Transport) && fresh(asptr(s.client.Transport, http.Transport))
